@@ -141,15 +141,17 @@ theorem witness_rootScalar_before :
     modifySpec [] inc (.int 5) = .int 6 ∧
     modifyM false { Dev.before with rootScalar := false } false inc [] (.int 5) = .ok (.int 6) := ⟨by rfl, by rfl, by rfl⟩
 
-/-- delOneAbsent (the code as it is): `DelOne $[*].a` on `[{"b":3},{"a":1}]` returns after the first object, which has no
-`a`, and deletes nothing although `$[1].a` is selected; RemoveOne on the same path removes it -/
-theorem witness_delOneAbsent :
-    setM false Dev.current true .del [.wild, .child kA] (.arr [.obj [(kB, .int 3)], objA 1]) = .ok (.arr [.obj [(kB, .int 3)], objA 1]) ∧
+/-- delOneAbsent (the code before 42fe1d2): `DelOne $[*].a` on `[{"b":3},{"a":1}]` returns after the first object, which has
+no `a`, and deletes nothing although `$[1].a` is selected; with the flag off (the code as it is) the member goes, as
+with RemoveOne -/
+theorem witness_delOneAbsent_before :
+    setM false Dev.before true .del [.wild, .child kA] (.arr [.obj [(kB, .int 3)], objA 1]) = .ok (.arr [.obj [(kB, .int 3)], objA 1]) ∧
     locs [.wild, .child kA] (.arr [.obj [(kB, .int 3)], objA 1]) = [[.idx 1, .key kA]] ∧
-    setM false { Dev.current with delOneAbsent := false } true .del [.wild, .child kA] (.arr [.obj [(kB, .int 3)], objA 1])
+    setM false { Dev.before with delOneAbsent := false } true .del [.wild, .child kA] (.arr [.obj [(kB, .int 3)], objA 1])
       = .ok (.arr [.obj [(kB, .int 3)], .obj []]) ∧
+    setM false Dev.current true .del [.wild, .child kA] (.arr [.obj [(kB, .int 3)], objA 1]) = .ok (.arr [.obj [(kB, .int 3)], .obj []]) ∧
     removeM false Dev.current true [.wild, .child kA] (.arr [.obj [(kB, .int 3)], objA 1]) = .ok (.arr [.obj [(kB, .int 3)], .obj []]) :=
-  ⟨by rfl, by rfl, by rfl, by rfl⟩
+  ⟨by rfl, by rfl, by rfl, by rfl, by rfl⟩
 
 /-- a location that is selected twice (a union that lists it twice): the modifier is applied twice. This is
 not behind a deviation flag (the traversal works once per occurrence, as Get lists the element twice); it is
@@ -426,7 +428,7 @@ theorem C13_partial (dev : Dev) (op : Op) (x : List Frag) (d d' : JV) (hnd : NoD
 
 /-! ## the code as it is now -/
 
-/-- the eight repaired deviations are off in `Dev.current` exactly because the patched source lines are there: the
+/-- the nine repaired deviations are off in `Dev.current` exactly because the patched source lines are there: the
 facts are regenerated from jp/slice.go, set.go, modify.go, union.go on every run (tools/extract/jpmut.go matches the
 shape of the patched lines). These are regression tripwires over the patched lines, not a semantic tie: undoing a
 repair flips a fact and breaks this theorem -/
@@ -441,7 +443,12 @@ theorem current_is_source :
         genModifyNil := !Gen.JpMut.modifyNodeNullSafe
         filterMapNil := !Gen.JpMut.modifyReflectNullSafe
         rootScalar := !Gen.JpMut.modifyRootPushed
-        delOneAbsent := true } := by decide
+        delOneAbsent := !Gen.JpMut.delOneGuarded } := by decide
+
+/-- the same kind of tripwire for the deviation that lives in the driver's reading of the path (`$` inside a final
+filter of Modify/Remove): off because modify.go, filter.go `remove`/`removeOne` and remove.go evaluate against the
+document (569235d) -/
+theorem currentT_is_source : currentT = !Gen.JpMut.filterRootDocument := by decide
 
 /-! ### what the code as it is does, for EVERY slice: the inclusive reading
 
